@@ -124,6 +124,7 @@ fn unwrap_set<'a>(n: RefNode<'a>, k: usize) -> Option<RefNode<'a>> {
 pub fn check_tree(tree: &SyntaxTree, structs: &BTreeSet<String>, deep: bool) -> Result<(usize, usize), String> {
     // (2) event view: discipline + Enter sequence == plain iteration
     let ix: TreeIndex = tree::index(tree)?;
+    let whole_s = tree::text_from_leaves(tree, &ix).ok_or_else(|| "the leaves of the tree do not tile its text".to_string())?;
     let plain: Vec<RefNode> = tree.into_iter().collect();
     if plain.len() != ix.nodes.len() {
         return Err(format!("plain iteration yields {} nodes, the event view enters {}", plain.len(), ix.nodes.len()));
@@ -213,7 +214,7 @@ pub fn check_tree(tree: &SyntaxTree, structs: &BTreeSet<String>, deep: bool) -> 
         // (5) get_str_trim
         let want = tree::trim_span(&ix, i);
         let got = tree.get_str_trim(vec![n.node.clone()]);
-        let whole = tree.get_str(vec![ix.nodes[0].node.clone()]).unwrap_or("");
+        let whole = whole_s.as_str();
         let want_s = want.map(|(b, e)| &whole[b..e]);
         if got != want_s {
             // defect signature: the skip flag is a bool, so the Leave of a WhiteSpace nested in a
@@ -289,7 +290,7 @@ pub fn check_tree(tree: &SyntaxTree, structs: &BTreeSet<String>, deep: bool) -> 
             let d = got.iter().zip(projs[n.pre + 1..n.end].iter()).position(|(a, b)| a != b).unwrap_or(0);
             return Err(format!("event view over the {} children of node #{} ({}): Enter #{} is {:?}, plain iteration has {:?}", kids.len(), i, n.kind, d, got.get(d), projs.get(n.pre + 1 + d)));
         }
-        let whole = tree.get_str(vec![ix.nodes[0].node.clone()]).unwrap_or("");
+        let whole = whole_s.as_str();
         let want_full = if n.first_leaf < n.leaf_end { Some(&whole[ix.leaves[n.first_leaf].0.offset..ix.leaves[n.leaf_end - 1].0.offset + ix.leaves[n.leaf_end - 1].0.len]) } else { None };
         let got_full = tree.get_str(roots());
         if got_full != want_full {
